@@ -442,6 +442,10 @@ func (u *upstream) answerWith(req *dns.Msg, ans *ansSpec) *dns.Msg {
 			if ans.echo.Is6() {
 				sub.Family = 2
 			}
+			// keep the option packable when it has to travel over a socket (forwarder route)
+			if int(sub.SourceNetmask) > ans.echo.BitLen() {
+				sub.SourceNetmask = uint8(ans.echo.BitLen())
+			}
 		}
 		subOpt = sub
 	}
@@ -1114,6 +1118,8 @@ func exec(op string) vlib.Res {
 		return execVer(f)
 	case "pipe":
 		return execPipe(f)
+	case "l3":
+		return execL3(f)
 	}
 	return vlib.Res{Impl: "bad-op"}
 }
